@@ -1,6 +1,7 @@
 import MlModel.Lemmas.TreeReserved
 import MlModel.Lemmas.TreeNdDeep
 import MlModel.Lemmas.TreeTup
+import MlModel.Lemmas.TreeKeyObj
 /-!
 # C18 — tree views obey get/set laws and never mutate the viewed data
 
@@ -1063,5 +1064,93 @@ example : Diverge ([PKey.str "SELF"] ++ PKey.str "SKIP" :: []) [.str "SELF", .st
   .next rfl rfl rfl (.here rfl (by intro i h; cases h) (Or.inl rfl) (by intro i h; cases h) (by decide))
 example : hR[4]? = some (.dict [(.str "KEEP", 0), (.str "SKIP", 1), (.str "SELF", 3)]) ∧
     dictGet [(DKey.str "KEEP", 0), (.str "SKIP", 1), (.str "SELF", 3)] (.str "SKIP") = some 1 ∧ (1 : Nat) ≠ 5 := by decide
+
+/-! ## C18_key_object: a mapping KEY that is itself a path-like object is ONE path element (wp-SC18c)
+
+A mapping may be keyed by any hashable object — in particular by `Key` instances (the library builds such dicts:
+`dict(view.items())` is a flattened tree), tuples, frozensets.  The model holds such a key as the opaque atom
+`DKey.obj a`; `_dfs_iter_tree` lists it with `parent_key_path.at(k)` as the ONE element `PKey.obj a`
+(`dkeyToPKey`, tree.py:299), `__get` / `_set_by_path` use it as one dict key.  `GoodDicts` does not exclude these keys, so
+`C18_items`, `C18_apply`, `C18_get_after_set`, `C18_frame` quantify over heaps holding them; the theorems below spell
+out what that means for such a key.  The seeded change C18-m5 (`Key.at()` joining the elements of a Key argument
+instead of appending it) listed the flattened spelling: a path with MORE elements than the leaf is deep, which does
+not read back (`KeyError`) or — next to the nested path it spells — reads ANOTHER leaf and is listed twice. -/
+
+/-- **A listed path has exactly depth-many elements, each ONE stored key**: for every pair `(p, x)` listed by
+`items()`, the leaf `x` lies exactly `p.length` parent→child edges below the root (`Descends`), `p` is the sequence of
+the key objects stored along that descent (`LeafWalk`: a `Key`-object / tuple key contributes the single element
+`PKey.obj a`), every element is a plain key and the path reads back `x`. -/
+theorem C18_key_object_is_one_element {h : Heap} (hg : GoodDicts h) {root : Ref} {n : Node} (hn : h[root]? = some n)
+    (hc : n.children ≠ []) {kvs : List (Path × Ref)} (hi : items h root = .ok kvs) {p : Path} {x : Ref}
+    (hm : (p, x) ∈ kvs) :
+    Descends h root p.length x ∧ LeafWalk h root p x ∧ (∀ k ∈ p, k.isPlain = true) ∧ get h root p = .ok x := by
+  obtain ⟨hw, hgp⟩ := (C18_items hg hn hc hi).2.2 p x hm
+  exact ⟨hw.descends, hw, fun k hk => hw.all_plain hg k hk, hgp⟩
+
+/-- **A leaf below a key-object key is listed once, under the key as ONE element, and reads back** — at any depth:
+`pre` are the stored keys from the root down to a dict `d` that has the entry `obj a ↦ c`, `q` a leaf walk below `c`.
+The listed path is `pre ++ [obj a] ++ q` (one element for the key object, whatever path it "spells"), it is listed
+exactly once (`Nodup`), and it reads back the leaf. -/
+theorem C18_key_object_listed {h : Heap} (hg : GoodDicts h) {root : Ref} {n : Node} (hn : h[root]? = some n)
+    (hc : n.children ≠ []) {kvs : List (Path × Ref)} (hi : items h root = .ok kvs)
+    {pre : Path} {d : Ref} (wp : Walk h root pre d) {es : List (DKey × Ref)} (hd : h[d]? = some (.dict es))
+    {a : Nat} {c : Ref} (hm : (DKey.obj a, c) ∈ es) {q : Path} {x : Ref} (wq : LeafWalk h c q x) :
+    (pre ++ .obj a :: q, x) ∈ kvs ∧ (kvs.map (·.1)).Nodup ∧ get h root (pre ++ .obj a :: q) = .ok x ∧
+      (pre ++ PKey.obj a :: q).length = pre.length + 1 + q.length := by
+  have hw : LeafWalk h root (pre ++ .obj a :: q) x := wp.leafWalk (.step hd (obj_mem_children hm) wq)
+  obtain ⟨hnd, hall, _⟩ := C18_items hg hn hc hi
+  exact ⟨hall _ _ hw, hnd, hw.get hg, by simp; omega⟩
+
+/-- **Get after set through a key-object key** (any depth: `pre`, `post` arbitrary paths of plain keys, `post`
+optionally cut short by `SELF`): the path — with the key object as ONE element — reads the very object set. -/
+theorem C18_key_object_get_set (strict : Bool) (a : Nat) {h : Heap} {t v : Ref} {pre post : Path}
+    {h' : Heap} {t' : Ref} (hpre : ∀ k ∈ pre, k.isPlain = true) (hpost : PlainSelf post)
+    (hs : setPath strict false h t (pre ++ .obj a :: post) v = (h', .ok t'))
+    (hnd : NoNd h' t' (pre ++ .obj a :: post)) :
+    get h' t' (pre ++ .obj a :: post) = .ok v :=
+  setPath_get_set strict _ h t v h' t' (PlainSelf.through hpre rfl hpost) hs h' (fun _ _ _ => rfl) hnd
+
+/-- … in particular for every such path that could be read before the set (an EXISTING key-object key). -/
+theorem C18_key_object_get_set_existing (strict : Bool) (a : Nat) {h : Heap} {t v x : Ref}
+    {pre post : Path} {h' : Heap} {t' : Ref} (hpre : ∀ k ∈ pre, k.isPlain = true) (hpost : PlainSelf post)
+    (hc : Closed h) (ht : t < h.size) (hg : get h t (pre ++ .obj a :: post) = .ok x)
+    (hs : setPath strict false h t (pre ++ .obj a :: post) v = (h', .ok t')) :
+    get h' t' (pre ++ .obj a :: post) = .ok v :=
+  C18_key_object_get_set strict a hpre hpost hs
+    (setPath_noNd_of_get strict _ h t v h' t' (· < h.size) (PlainSelf.through hpre rfl hpost) hc.region ht ⟨x, hg⟩
+      hs h' (fun _ _ _ => rfl))
+
+/-- **Frame**: a copying set through a key-object key leaves every path that leaves the set path reading as before —
+in particular the nested path the key object "spells" (`Diverge`: `obj a` and `str "a"` are different dict keys). -/
+theorem C18_key_object_frame (strict : Bool) (a : Nat) {h : Heap} {t v : Ref} {pre post q : Path}
+    {h' : Heap} {t' : Ref} (hc : Closed h) (ht : t < h.size) (d : Diverge (pre ++ .obj a :: post) q)
+    (hs : setPath strict false h t (pre ++ .obj a :: post) v = (h', .ok t')) (x : Ref) :
+    get h' t' q = .ok x ↔ get h t q = .ok x := by
+  rw [← copyAndSet_path] at hs
+  exact C18_frame strict hc ht d hs x
+
+/-- the demo of the seeded change: `{Key().a.b: 1, 'a': {'b': 2}}` — cells 0, 1 the leaves, 2 = `{'b': 2}`, 3 the root -/
+private def hK : Heap :=
+  #[.leaf (.int 1), .leaf (.int 2), .dict [(.str "b", 1)], .dict [(.obj 0, 0), (.str "a", 2)]]
+
+/-- (test, `decide`) on the demo data the key object is listed as ONE element, the nested path it spells is ANOTHER
+listed path, both read back their own leaf; reading the flattened spelling reaches the OTHER leaf — so an implementation
+that lists the flattened spelling for the key object lists `['a', 'b']` twice and never the leaf `1`. -/
+theorem C18_key_object_witness :
+    items hK 3 = .ok [([.obj 0], 0), ([.str "a", .str "b"], 1)] ∧
+    get hK 3 [.obj 0] = .ok 0 ∧ get hK 3 [.str "a", .str "b"] = .ok 1 ∧
+    (setPath false false hK 3 [.obj 0] 1).1[4]? = some (.dict [(.obj 0, 1), (.str "a", 2)]) :=
+  ⟨rfl, rfl, rfl, by decide⟩
+
+-- non-vacuity of the hypotheses on the demo data
+example : GoodDicts hK := goodDictsB_sound (by decide)
+example : Closed hK := closedB_sound (by decide)
+example : Walk hK 3 [] 3 := .nil
+example : LeafWalk hK 0 [] 0 := .leaf (n := .leaf (.int 1)) rfl rfl
+example : Walk hK 3 [.str "a"] 2 := .step (n := .dict [(.obj 0, 0), (.str "a", 2)]) rfl (by decide) .nil
+example : get hK 3 ([] ++ .obj 0 :: []) = .ok 0 := rfl
+example : (setPath false false hK 3 ([] ++ .obj 0 :: []) 1).2 = .ok 4 := rfl
+example : Diverge ([] ++ PKey.obj 0 :: []) [.str "a", .str "b"] :=
+  .here rfl (by intro i h; cases h) (Or.inl rfl) (by intro i h; cases h) (by decide)
 
 end MlModel.C18
